@@ -229,6 +229,10 @@ class RodCase:
             s = loguniform(rng, 0.05, 20.0, size=n)
         elif qnorm == "extreme":
             s = loguniform(rng, 1e-3, 1e3, size=n)
+        elif qnorm == "tiny":
+            # nodal quaternions many orders shorter than one (a state whose quaternions were never normalised and shrank, or were
+            # given in other "units"): the rotations they stand for are the same
+            s = loguniform(rng, 1e-9, 1e-5, size=n)
         elif qnorm == "common":
             s = np.full(n, float(loguniform(rng, 0.05, 20.0)))
         else:
